@@ -516,8 +516,12 @@ http_sconn_rxdone(void *arg)
 	if ((cls = nni_http_get_header(sc->conn, "Content-Length")) != NULL) {
 		char *end;
 		sc->unconsumed_body = strtoull(cls, &end, 10);
-		if ((end == NULL) && (*end != '\0')) {
+		if ((cls[0] < '0') || (cls[0] > '9') || (*end != '\0')) {
+			// Not a plain decimal number: we cannot know where
+			// this request ends, so the connection cannot be
+			// reused either.
 			sc->unconsumed_body = 0;
+			sc->close           = true;
 			http_sconn_error(sc, NNG_HTTP_STATUS_BAD_REQUEST);
 			return;
 		}
